@@ -138,6 +138,10 @@ def shard_random(shard, nshards, tier, seed, scratch):
     return {'stats': stats.export(), 'failures': fails}
 
 
+IDENT_WORDS = ['constructor', 'toString', 'valueOf', 'hasOwnProperty', 'isPrototypeOf', '__proto__', 'propertyIsEnumerable', 'toLocaleString', '__defineGetter__', 'length', 'prototype',
+               '__class__', '__dict__', '__len__', 'None', 'null', 'undefined', 'NaN', 'true', 'get', 'set', 'has', 'size', 'keys']
+
+
 def shard_js(shard, nshards, tier, seed, scratch):
     stats = Stats()
     failures, seen = [], set()
@@ -168,6 +172,23 @@ def shard_js(shard, nshards, tier, seed, scratch):
                     seen.add(('js', 'query-result'))
                     failures.append({'leg': 'js', 'clause': 'js-query-result', 'detail': {'text': t, 'pattern': p, 'got': r[0], 'expected': exp}, 'case': {'kind': 'jspair', 'text': t, 'pattern': p}})
         stats.bump('js-batches', len(jobs))
+        # patterns / texts that are member names of the host languages' built-in objects (a cache keyed by pattern in a plain object / dict)
+        rows = [[t, p] for t in IDENT_WORDS + ['xxprotoxx', 'constructors', ''] for p in IDENT_WORDS + ['const%', '%String', '__proto%', '%']]
+        res = drv.query_table('select like(a1, a2)', rows)
+        if res['error'] is not None:
+            raise Violation('js-error', {'text': rows[0][0], 'pattern': 'one of the identifier-like patterns', 'error': res['error']})
+        pyres = engine.run_table('select like(a1, a2)', [list(r) for r in rows], None, None, None)
+        if pyres['error'] is not None:
+            raise Violation('py-error', {'text': rows[0][0], 'pattern': 'one of the identifier-like patterns', 'error': pyres['error']})
+        for (t, p), r, r2 in zip(rows, res['out'], pyres['out']):
+            exp = refmodel.ref_like(t, p)
+            stats.evaluations += 2
+            stats.nontrivial_counted += 1
+            for lang, got in (('js', r[0]), ('py', r2[0])):
+                if got is not exp and (lang, 'ident') not in seen:
+                    seen.add((lang, 'ident'))
+                    failures.append({'leg': 'js', 'clause': lang + '-query-result-identifier-like', 'detail': {'text': t, 'pattern': p, 'got': got, 'expected': exp}, 'case': {'kind': 'jspair', 'text': t, 'pattern': p}})
+        stats.bump('identifier-like-pairs', len(rows))
         import random
         rnd = random.Random(seed)
         astral = ['😀', '𝄞', 'a', 'b', '%', '.', '*', 'é', '€', '\\', '(', '𐍈']
